@@ -16,7 +16,11 @@ Definition wf_fs (fs : fsys) : Prop := NoDup (map fst fs).
 Definition target_tokens (cp : path) (written : str) : option (list token) :=
   match parent cp with
   | None => None
-  | Some dir => parse_pattern (path_string (canonicalize (join dir written)))
+  | Some dir =>
+      match parse_pattern (path_string (canonicalize (join dir written))) with
+      | Tokens ts => Some ts
+      | _ => None
+      end
   end.
 
 (* k is a file the include matches *)
